@@ -16,4 +16,7 @@ CONTROLS = [
          expect=r"set_default_doc/ensures\[1\]"),
     dict(name="BENIGN: local `has_defaults` renamed throughout defaults_utils.py", benign=True,
          edits=[("cdd/shared/defaults_utils.py", "has_defaults", "mentions_default", "rename")]),
+    dict(name="set_default_doc turns the NoneStr default of the caller's param dict into None (seed C04_e shape)",
+         edits=[("cdd/shared/defaults_utils.py", "        # if _param[\"default\"] == NoneStr: _param[\"default\"] = None\n", "        if _param[\"default\"] == \"```(None)```\":\n            _param[\"default\"] = None\n")],
+         expect=r"set_default_doc/ensures\[5\]"),
 ]
